@@ -38,6 +38,25 @@ PROPERTIES = {
              "old": "    if \"_cohdlstd_bitcount\" in cls.__dict__:", "new": "    if hasattr(cls, \"_cohdlstd_bitcount\"):"},
         ],
     },
+    "C19": {
+        "modules": ["contracts.core_models", "contracts.c09_arith", "contracts.c19_proofs"],
+        "level": "other",
+        "explanation": "two layers. PROVED from the real source for SYMBOLIC formats [left:right] and raw values: SFixed/UFixed.__add__/__sub__/__mul__ return a value of some format whose represented number is exactly a (op) b (UFixed a-b wraps modulo the result range), including that the raw vector handed to the result constructor has the width of the result format (the real __init__ raw branch and std.Value are interpreted); __eq__ requires equal formats and then compares represented numbers. The raw-vector arithmetic used is the proved C09 contract of Signed/Unsigned (resize, +, -, *); nonlinear steps are instances of lemma schemas proved by the solver on every run (pyvc/lemmas.py). BOUNDED (labelled, never counted as proved): resize_fn (every source format x target format x round style x overflow style x raw value within the bound, against exact rational arithmetic: floor / ties-to-even, then wrap / clamp), the constructors from int, float, Signed, Unsigned and other formats (value preserved; accepted where the constructor's own preconditions hold), equality with numbers, and + - * again end to end.",
+        "assumptions": COMMON_ASSUME + [
+            "a fixed point value is viewed as (width, exponent, raw integer); the type qualifier around the raw vector forwards operators to the wrapped Signed/Unsigned (pass-through glue)",
+            "resize_fn is bit-level traced code (msb/lsb/choose_first over Bit values): bounded only -- formats with left,right in [-3,3] and width <= 4 (quick) / all 28 formats in [-3,3] (thorough), all raw values",
+            "float construction is checked for representable numbers only (the statement speaks of representable numbers); int(val / 2**exp) goes through an IEEE double, exact within the bound",
+            "emitted logic for run-time operands is not executed (no VHDL simulator); it rests on the per-operator contracts of C02/C09",
+        ],
+        "extra": ["contracts.c19_fixed.fixed_sweep"],
+        "canaries": [
+            {"name": "add-growth-bit", "contract": "cohdl.std._fixed:SFixed.__add__", "case": "a-finer,a-higher", "file": "cohdl/std/_fixed.py",
+             "old": "        target_left = max(self.left(), other.left()) + 1\n        target_width = target_left - target_right + 1\n\n        lhs_zeros = self.right() - target_right\n        rhs_zeros = other.right() - target_right\n\n        return SFixed[target_left:target_right](\n            raw=self._val.resize(target_width, zeros=lhs_zeros)\n            + other._val.resize(target_width, zeros=rhs_zeros)",
+             "new": "        target_left = max(self.left(), other.left() + 1)\n        target_width = target_left - target_right + 1\n\n        lhs_zeros = self.right() - target_right\n        rhs_zeros = other.right() - target_right\n\n        return SFixed[target_left:target_right](\n            raw=self._val.resize(target_width, zeros=lhs_zeros)\n            + other._val.resize(target_width, zeros=rhs_zeros)"},
+            {"name": "mul-exponent", "contract": "cohdl.std._fixed:UFixed.__mul__", "case": "formats", "file": "cohdl/std/_fixed.py",
+             "old": "        return UFixed[self.left() + other.left() + 1 : self.right() + other.right()](", "new": "        return UFixed[self.left() + other.left() + 2 : self.right() + other.right() + 1]("},
+        ],
+    },
     "C18": {
         "modules": ["contracts.core_models", "contracts.c18_proofs"],
         "level": "other",
